@@ -4,8 +4,9 @@
    and every finite history of public operations at any nesting depth, the pointer machine (Unsized/Machine.v,
    Ops.v) succeeds / fails exactly when the owned model does and every observation agrees.
    PROVED here (named ..._general, from Unsized/Proofs/{Layout,Observe,Table,Path,Context,Focus,FocusOps,NotifyInside,
-   Resize,GenOps,History}.v): for EVERY enum-free shape (structs, lists, trailing bytes, lists and maps of unsized
-   elements nested to any depth), every well-formed value, every path and every finite history of
+   Resize,GenOps,History}.v): for EVERY shape of the universe (structs, lists, trailing bytes, lists and maps of unsized
+   elements, generated enums - all nested to any depth; the hypothesis `plain t = true` that the statements carry is
+   true of every shape, C01_every_shape), every well-formed value, every path and every finite history of
    List::insert_all / remove_range (push, insert, pop, remove, clear are instances) issued at ANY nesting depth through
    get_mut / get_exclusive on every list of unsized elements on the way: the machine succeeds exactly when the owned
    model does, every ancestor header / offset table / live pointer is updated, and every observation agrees.
@@ -18,22 +19,23 @@
    (set_from_owned, C01_set_data_refines) for every sub-value whose chain of first fields ends in a non-struct.
    UnsizedMap insert on an EXISTING key replaces the element by the default value through get_exclusive + set_from_init
    (C01_keyed_unsized_map_overwrite).
-   NOT covered by a theorem: UnsizedString, non-default initialisers, failing initialisers (D16), enums - generated enums
-   (variant switches, operations inside the live variant, lists of enums, enums in tail position) are in the operations
-   harness and the model since the second round (op codes 1 / 60 at an enum) but correspondence only.
+   Generated enums (since the enum extension of the theory: Unsized/Proofs/EnumFacts.v, Enums.v and an enum case in every
+   induction): paths descend into the live variant's payload (step SV), every operation above works inside it, whole enum
+   values are replaced by set_from_owned, and the generated setter set_<variant>(DefaultInit) (C01_enum_switch_refines,
+   C01_run_refines_with_switches, C01_dispatcher_tie_switch) refines assigning the new variant's default value.
+   NOT covered by a theorem: UnsizedString, non-default initialisers, failing initialisers (D16).
    Also (named ..._flat, the earlier special case): the full refinement for FLAT shapes - generated structs whose fields are
    fixed-size values, lists of any element type and prefix width, and a trailing RemainingBytes - under
    histories of insert_all / remove_range (push, insert, pop, remove, clear are instances) with interleaving
-   between sibling fields, unbounded in sizes and steps.  For lists of unsized elements, maps, enums and
-   whole-value replacement the machine is tied to the implementation by the correspondence check only,
-   plus the shape-generic lemmas below (the shift lemma covers the repaired D7 branch for every shape). *)
+   between sibling fields, unbounded in sizes and steps; and the shape-generic lemmas below (the shift lemma covers the
+   repaired D7 branch for every shape). *)
 From SF Require Import Base.Prelude Gen.Generated Unsized.Types Unsized.Parse Unsized.Machine Unsized.Ops.
 From SF Require Import Unsized.Proofs.EncodeParse Unsized.Proofs.Mem Unsized.Proofs.Notify Unsized.Proofs.Flat.
 From SF Require Import Unsized.Proofs.Layout Unsized.Proofs.Observe Unsized.Proofs.Path Unsized.Proofs.Context Unsized.Proofs.FocusOps
   Unsized.Proofs.NotifyInside Unsized.Proofs.Resize Unsized.Proofs.GenOps Unsized.Proofs.History.
 From SF Require Import Unsized.Run Unsized.Proofs.Init Unsized.Proofs.History2 Unsized.Proofs.ExecTie.
 From SF Require Import Unsized.Proofs.ExecTie2 Unsized.Proofs.Keyed Unsized.Proofs.NotifyInside2 Unsized.Proofs.SetData.
-From SF Require Import Unsized.Proofs.History3 Unsized.Proofs.History4.
+From SF Require Import Unsized.Proofs.History3 Unsized.Proofs.History4 Unsized.Proofs.Enums.
 
 (* one operation: same success, and the new machine state represents the owned model's new value *)
 Theorem C01_flat_step_refines :
@@ -209,7 +211,7 @@ Theorem C01_dispatcher_tie :
     RepF [] t v s top ->
     (exists X xv, resolve t v (focus_of o) = Some (X, xv) /\ (exists c lw, X = TList c lw)) ->
     mstepG ovf t s top o = Ok r ->
-    forall fuel, (length (focus_of o) < fuel)%nat -> exec fuel ovf t s top [] (enc_op o) = Ok r.
+    forall fuel, (length (focus_of o) < fuel)%nat -> exec fuel ovf t s top [] (enc_op t v o) = Ok r.
 Proof. exact exec_tie_ok. Qed.
 
 (* the dispatcher tie for the full operation set *)
@@ -217,7 +219,7 @@ Theorem C01_dispatcher_tie_all_ops :
   forall ovf t v s top o r,
     RepF [] t v s top -> (exists v', ostepX (m_cap s) t v o = Some v') ->
     mstepX ovf t s top o = Ok r ->
-    forall fuel, (length (xfocus o) < fuel)%nat -> exec fuel ovf t s top [] (enc_xop o) = Ok r.
+    forall fuel, (length (xfocus o) < fuel)%nat -> exec fuel ovf t s top [] (enc_xop t v o) = Ok r.
 Proof. exact exec_tie_x_ok. Qed.
 
 (* whole-value replacement anywhere inside the value: ExclusiveWrapper::set_from_owned refines assignment *)
@@ -333,6 +335,59 @@ Proof. exact yrun_refines. Qed.
 Theorem C01_keyed_views_stay_sorted :
   forall cap t v o v' obs, ostepY cap t v o = Some (v', obs) -> sorted_view t v o /\ sorted_view t v' o.
 Proof. intros. split; [eapply ostepY_domain|eapply ostepY_keeps_sorted]; eauto. Qed.
+
+(* ---- generated enums ---- *)
+(* the hypothesis `plain t = true` of the statements above holds of every shape *)
+Theorem C01_every_shape : forall t, plain t = true.
+Proof. exact plain_all. Qed.
+
+(* set_<variant d>(DefaultInit) at an enum reached by any path (through struct fields, elements of lists of unsized
+   elements, payloads of other enums): the machine rewrites discriminant and payload, resizes, updates every ancestor
+   header / offset table / live pointer, and represents the value with that enum replaced by variant d's default *)
+Theorem C01_enum_switch_refines :
+  forall ovf pi t v rw vs xv d vt s top,
+    resolve t v pi = Some (TEnum rw vs, xv) -> find_variant d vs = Some vt ->
+    0 <= d < 256 ^ Z.of_nat rw -> zero_ok vt = true ->
+    RepF pi t v s top -> m_refuse s <> 1 ->
+    m_len s + (Z.of_nat rw + init_size vt 0 - zlen (encode (TEnum rw vs) xv)) <= m_cap s ->
+    exists s' top', set_data ovf t s top (mpath pi) (init_variant_size rw vt 0) (init_variant rw d vt 0) = Ok (s', top', []) /\
+                    RepF pi t (plug t v pi (VEnum d (dflt vt))) s' top' /\ m_cap s' = m_cap s /\ m_refuse s' = m_refuse s.
+Proof. exact enum_switch_general. Qed.
+
+(* ONE history theorem for the full operation set plus variant switches, on every shape *)
+Theorem C01_run_refines_with_switches :
+  forall ovf t h v s top pi0 v' obss,
+    RepF pi0 t v s top -> m_refuse s <> 1 -> orunZ (m_cap s) t v h = Some (v', obss) ->
+    exists s' top' pi', mrunZ ovf t s top h = Ok (s', top', obss) /\ RepF pi' t v' s' top' /\ m_cap s' = m_cap s.
+Proof. exact zrun_refines. Qed.
+
+(* the dispatcher the extracted runner executes, on the op-code stream the harness sends for a switch *)
+Theorem C01_dispatcher_tie_switch :
+  forall ovf t v s top pi d r,
+    RepF [] t v s top ->
+    (exists X xv, resolve t v pi = Some (X, xv) /\ (exists rw vs, X = TEnum rw vs)) ->
+    mstepZ ovf t s top (ZSwitch pi d) = Ok r ->
+    forall fuel, (length pi < fuel)%nat -> exec fuel ovf t s top [] (enc_path t v pi ++ [60; d]) = Ok r.
+Proof. exact exec_tie_switch. Qed.
+
+Example C01_nonvacuous_enums :
+  (* an enum inside a list of unsized elements inside a struct: switch to a data variant, insert into the list inside its
+     payload (path through SV), switch back to the unit variant *)
+  let t := TStruct [TFixed (FAny 1); TUList (TEnum 1 [(0, TStruct []); (3, TList (FAny 1) 1)]) 0; TList (FAny 1) 1] in
+  let v := VStruct [VBytes [9]; VUList [([], VEnum 0 (VStruct [])); ([], VEnum 3 (VList [[5]]))]; VList [[7]]] in
+  let s := mkMach (encode t v ++ zrepeat 0 32) (zlen (encode t v)) 0 0 in
+  let h := [ZSwitch [SF 1; SE 0] 3; ZY (YX (XList (GInsert [SF 1; SE 0; SV] 0 [[4]])))] in
+  let v' := VStruct [VBytes [9]; VUList [([], VEnum 3 (VList [[4]])); ([], VEnum 3 (VList [[5]]))]; VList [[7]]] in
+  orunZ (m_cap s) t v h = Some (v', [[]; []]) /\
+  match get_ptr true t (m_mem s) 0 (m_len s) with
+  | Ok (top, _) =>
+      match mrunZ true t s top h with
+      | Ok (s', top', _) => ztake (m_len s') (m_mem s') = encode t v' /\ owned_ptr true t (m_mem s') top' = Ok v' /\ top_check s' top' = true
+      | _ => False
+      end
+  | _ => False
+  end.
+Proof. vm_compute. repeat split; reflexivity. Qed.
 
 Example C01_nonvacuous_all_ops :
   let et := TStruct [TFixed (FAny 2); TList (FAny 1) 1] in
